@@ -201,6 +201,21 @@ pub mod pool_iter {
         #[verifier::external_body]
         pub fn collect<C: FromItems<B>>(self) -> (r: C) ensures r.collected_from(self.seq()) { unimplemented!() }
     }
+    /// a `Mapped<B>` can also drive a `for` loop (it yields `seq()` in order)
+    impl<B> Iterator for Mapped<B> {
+        type Item = B;
+        #[verifier::external_body]
+        fn next(&mut self) -> (r: Option<B>) { unimplemented!() }
+    }
+    impl<B> vstd::std_specs::iter::IteratorSpecImpl for Mapped<B> {
+        open spec fn obeys_prophetic_iter_laws(&self) -> bool { true }
+        open spec fn remaining(&self) -> Seq<B> { self.seq() }
+        open spec fn will_return_none(&self) -> bool { true }
+        open spec fn peek(&self, index: int) -> Option<B> {
+            if 0 <= index < self.seq().len() { Some(self.seq()[index]) } else { None }
+        }
+        open spec fn decrease(&self) -> Option<nat> { Some(self.seq().len()) }
+    }
     /// what `collect()` builds from the yielded items
     pub trait FromItems<B>: Sized { spec fn collected_from(&self, s: Seq<B>) -> bool; }
     pub open spec fn all_ok<T, E>(s: Seq<Result<T, E>>) -> bool { forall|i: int| 0 <= i < s.len() ==> (#[trigger] s[i]) is Ok }
